@@ -375,7 +375,16 @@ pub fn miri_slice(r: &mut Report, seed: u64, n: usize, shard: usize) -> usize {
         let eof_at = rng.below(len as u64 + 1) as usize;
         run_schedule(r, &stream, eof_at, Chunking::Cuts(cuts), rng.chance(1, 2), true, true);
         run_schedule(r, &stream, len, Chunking::Bytewise, true, true, true);
-        ops += 2;
+        // mixed reading operations over reply-shaped packets
+        let pk = reply_like_packets();
+        let mut s2 = vec![];
+        for _ in 0..1 + rng.below(3) {
+            s2.extend(rng.pick(&pk).clone());
+        }
+        let ops_sel: Vec<u8> = (0..5).map(|_| rng.below(4) as u8).collect();
+        let n2 = s2.len();
+        run_mixed(r, &s2, if rng.chance(2, 3) { n2 } else { rng.below(n2 as u64 + 1) as usize }, if rng.chance(1, 2) { Chunking::Whole } else { Chunking::Bytewise }, rng.chance(1, 2), &ops_sel, true);
+        ops += 3;
     }
     ops
 }
